@@ -260,3 +260,89 @@ Proof.
   destruct C as [->|[->|[->|[->|[->|[->|[->| ->]]]]]]]; destruct ctl, la, tr; vm_compute; repeat split; congruence.
 Qed.
 
+
+(* ---------------------------------------------------------------- request header, response header, control record *)
+(* the bytes request.encode writes after the length field and before the body, for header versions 1 and 2
+   (every request type of the package has header version >= 1: checked by the harness on every run) *)
+Definition request_header_bytes (hv key version corr : Z) (cid : list Z) : list Z :=
+  be 2 key ++ be 2 version ++ be 4 corr ++ (be 2 (len cid) ++ cid) ++ (if 2 <=? hv then put_uvarint 0 else []).
+
+Lemma request_ops_bytes hv key version corr cid body bb : 1 <= hv -> spec_bytes body = inr bb ->
+  spec_bytes (request_ops hv key version corr cid body) =
+  inr (be 4 (len (request_header_bytes hv key version corr cid ++ bb)) ++ request_header_bytes hv key version corr cid ++ bb).
+Proof.
+  intros Hhv Hb. unfold request_ops, request_header_bytes. rewrite spec_bytes_frame.
+  replace (1 <=? hv) with true by (symmetry; apply Z.leb_le; lia).
+  destruct (2 <=? hv); cbn [app eseq spec_bytes real_prim]; rewrite Hb; cbn [frame_field]; rewrite ?app_nil_r, <- ?app_assoc; reflexivity.
+Qed.
+
+Theorem request_header_rt hv_of hv key version corr cid d rest :
+  1 <= hv <= 2 -> hv_of key version = Some hv -> in_i16 key -> in_i16 version -> in_i32 corr -> len cid <= MAX_INT16 ->
+  at_ d (request_header_bytes hv key version corr cid ++ rest) ->
+  okm (request_header_decode hv_of d) (key, version, corr, cid) d (len (request_header_bytes hv key version corr cid)) (len cid).
+Proof.
+  intros Hhv Hof Hk Hv Hc Hcid Hat. unfold request_header_bytes in *. rewrite <- !app_assoc in Hat. unfold request_header_decode.
+  pose proof (get_int16_rt key d _ Hk Hat) as G. step G.
+  assert (Hat1 : at_ d1 (be 2 version ++ be 4 corr ++ be 2 (len cid) ++ cid ++ (if 2 <=? hv then put_uvarint 0 else []) ++ rest))
+    by (eapply at_moved; [exact Hat | rewrite len_be; exact M]).
+  pose proof (get_int16_rt version d1 _ Hv Hat1) as G. step G.
+  assert (Hat2 : at_ d0 (be 4 corr ++ be 2 (len cid) ++ cid ++ (if 2 <=? hv then put_uvarint 0 else []) ++ rest))
+    by (eapply at_moved; [exact Hat1 | rewrite len_be; exact M0]).
+  pose proof (get_int32_rt corr d0 _ Hc Hat2) as G. step G.
+  assert (Hat3 : at_ d2 ((be 2 (len cid) ++ cid) ++ (if 2 <=? hv then put_uvarint 0 else []) ++ rest))
+    by (rewrite <- app_assoc; eapply at_moved; [exact Hat2 | rewrite len_be; exact M1]).
+  pose proof (get_string_rt cid d2 _ Hcid Hat3) as G. step G. rewrite Hof.
+  assert (Hat4 : at_ d3 ((if 2 <=? hv then put_uvarint 0 else []) ++ rest))
+    by (eapply at_moved; [exact Hat3 | rewrite len_app, len_be; exact M2]).
+  rewrite !len_app, !len_be. change (Z.of_nat 2) with 2. change (Z.of_nat 4) with 4.
+  destruct (2 <=? hv).
+  - pose proof (get_uvarint_rt 0 d3 rest ltac:(unfold in_u64, two64; lia) Hat4) as G. step G.
+    eexists; split; [reflexivity|].
+    eapply moved_eq; [eapply moved_trans; [exact M | eapply moved_trans; [exact M0 | eapply moved_trans; [exact M1 | eapply moved_trans; [exact M2 | exact M3]]]] | lia | lia].
+  - eexists; split; [reflexivity|]. change (len (@nil Z)) with 0.
+    eapply moved_eq; [eapply moved_trans; [exact M | eapply moved_trans; [exact M0 | eapply moved_trans; [exact M1 | exact M2]]] | lia | lia].
+Qed.
+
+(* response header as a broker writes it *)
+Theorem response_header_rt version length corr d rest :
+  4 < length <= MAX_RESPONSE_SIZE -> in_i32 corr -> at_ d (pbytes ([PInt32 length; PInt32 corr] ++ (if 1 <=? version then [PEmptyTagged] else [])) ++ rest) ->
+  exists d', response_header_decode version d = Ok (length, corr) d' /\ raw d' = raw d /\ off d' = off d + 8 + (if 1 <=? version then 1 else 0).
+Proof.
+  intros Hl Hc Hat. unfold response_header_decode. unfold MAX_RESPONSE_SIZE in *.
+  rewrite pbytes_app in Hat. cbn [pbytes] in Hat. unfold pb at 1 2 in Hat. cbn [real_prim] in Hat. rewrite <- !app_assoc in Hat.
+  pose proof (get_int32_rt length d _ ltac:(unfold in_i32; lia) Hat) as G. step G.
+  replace ((length <=? 4) || (104857600 <? length)) with false by (symmetry; apply orb_false_iff; split; [apply Z.leb_gt | apply Z.ltb_ge]; lia).
+  assert (Hat1 : at_ d1 (be 4 corr ++ [] ++ pbytes (if 1 <=? version then [PEmptyTagged] else []) ++ rest))
+    by (eapply at_moved; [exact Hat | rewrite len_be; exact M]).
+  pose proof (get_int32_rt corr d1 _ Hc Hat1) as G. step G.
+  assert (Hat2 : at_ d0 (pbytes (if 1 <=? version then [PEmptyTagged] else []) ++ rest))
+    by (eapply at_moved; [exact Hat1 | rewrite len_be; exact M0]).
+  destruct M as (A1 & A2 & _), M0 as (B1 & B2 & _).
+  destruct (1 <=? version).
+  - cbn [pbytes] in Hat2. unfold pb in Hat2. cbn [real_prim] in Hat2. rewrite app_nil_r in Hat2.
+    pose proof (get_empty_tagged_rt d0 rest Hat2) as G. step G. destruct M as (C1 & C2 & _).
+    eexists; split; [reflexivity|]. split; [congruence | lia].
+  - eexists; split; [reflexivity|]. split; [congruence | lia].
+Qed.
+
+(* control records: the two halves ControlRecord.encode writes decode back for the known types *)
+Theorem control_record_rt (c : control_record) key value krest vrest :
+  cr_type c <> CRUnknown -> in_i16 (cr_version c) -> in_i32 (cr_epoch c) ->
+  at_ key (pbytes [PInt16 (cr_version c); PInt16 (match cr_type c with CRAbort => 0 | _ => 1 end)] ++ krest) ->
+  at_ value (pbytes [PInt16 (cr_version c); PInt32 (cr_epoch c)] ++ vrest) ->
+  exists key', fst (control_decode key value) = Ok c key'.
+Proof.
+  destruct c as [ver ep ty]. cbn [cr_type cr_version cr_epoch].
+  intros Ht Hv He Hk Hva. unfold control_decode. cbn [pbytes] in Hk, Hva. unfold pb in Hk, Hva. cbn [real_prim] in Hk, Hva.
+  rewrite <- !app_assoc in Hk, Hva. cbn [app] in Hk, Hva.
+  set (tyz := match ty with CRAbort => 0 | _ => 1 end) in *.
+  assert (Htz : in_i16 tyz /\ (ty = CRAbort -> tyz = 0) /\ (ty = CRCommit -> tyz = 1)) by (unfold tyz, in_i16; destruct ty; repeat split; try lia; congruence).
+  destruct Htz as (Htz & Hz0 & Hz1).
+  pose proof (get_int16_rt _ key _ Hv Hk) as G. step G.
+  assert (Hk1 : at_ d1 (be 2 tyz ++ krest)) by (eapply at_moved; [exact Hk | rewrite len_be; exact M]).
+  pose proof (get_int16_rt _ d1 _ Htz Hk1) as G. step G.
+  pose proof (get_int16_rt _ value _ Hv Hva) as G. destruct G as (v1 & Ev1 & Mv1).
+  assert (Hv1 : at_ v1 (be 4 ep ++ vrest)) by (eapply at_moved; [exact Hva | rewrite len_be; exact Mv1]).
+  pose proof (get_int32_rt _ v1 _ He Hv1) as G. destruct G as (v2 & Ev2 & Mv2).
+  destruct ty; try congruence; [rewrite (Hz0 eq_refl) | rewrite (Hz1 eq_refl)]; cbn [Z.eqb]; rewrite Ev1, Ev2; cbn [fst]; eexists; reflexivity.
+Qed.
